@@ -269,6 +269,11 @@ def run(c):
     c.assumptions = ["reference wire layout of the 48-byte header from the protocol description",
                      "peer request table, actor system and chain accessor are harness stubs; libp2p is not involved",
                      "chunk-receiver timeouts not modelled (ttl 1h in the harness)", "TLC 1.8.0"]
+    # developer aid (mutation runs): VERIF_C18_PARTS=a,b restricts the run to some parts; the default is everything
+    parts = set(p for p in os.environ.get("VERIF_C18_PARTS", "a,b,c").split(",") if p in ("a", "b", "c")) or {"a", "b", "c"}
+    if parts != {"a", "b", "c"}:
+        c.notes.append("PARTIAL RUN: parts %s only (VERIF_C18_PARTS)" % sorted(parts))
+    part_of = {"fr": "a", "hs": "b", "br": "c"}
     # ---- 1. TLC: design checks and generation, concurrently
     W = 3
     jobs = [
@@ -283,86 +288,99 @@ def run(c):
     ]
     if not quick:
         jobs.append(("br-mc2", "MC_BlockRecv", "MC_BlockRecv_big2.cfg", W, 1500))
+    jobs = [j for j in jobs if part_of[j[0][:2]] in parts]
     # the Go harnesses are compiled while TLC runs
-    pkgs = ["./p2p/v030/", "./p2p/v200/", "./p2p/"]
+    pkgs = [p for p, need in (("./p2p/v030/", {"a", "b"}), ("./p2p/v200/", {"b"}), ("./p2p/", {"c"})) if need & parts]
     with concurrent.futures.ThreadPoolExecutor(max_workers=2) as ex:
         fb = ex.submit(_build_tests, pkgs)
         ft = ex.submit(_tlc_batch, c, jobs)
         R = ft.result()
         exes = fb.result()
     try:
-        c.require_ok(R["fr-mc"], "Framing design: RoundTrip, BoundedAlloc, AllocAfterCheck, Total, Deterministic, CleanFailure, ConsumedExact")
-        c.require_ok(R["hs-mc"], "Handshake design: SameChainOnly, Decision, TwinAccepted, Total, InboundSendsAfterAccept")
-        c.require_ok(R["br-mc"], "BlockRecv intended design: FwdOwnDigest, SyncerOwnDigest, CacheOnlyLegit, ForgedNoTrace, GenuineAccepted, AnnouncementHeard, OneAnswer")
-        if not quick:
-            c.require_ok(R["br-mc2"], "BlockRecv intended design, 3-block requests, responses of <= 3 blocks")
-        c.require_ok(R["fr-gen"], "Framing: enumeration of finished reader runs")
-        c.require_ok(R["hs-gen"], "Handshake: enumeration of finished runs")
-        c.require_ok(R["br-gen"], "BlockRecv: enumeration of transitions")
-        # the as-coded variants must FAIL in the design (that is the suspected defect); their counterexamples become test scenarios
-        scenarios = []
-        for key, prop, name in (("br-ac1", "GenuineAccepted", "forged-notice-then-genuine-notice"),
-                                ("br-ac2", "AnnouncementHeard", "forged-notice-then-announcement")):
-            r = R[key]
-            c.add_tlc(r, "BlockRecv AS CODED (no digest check): expected counterexample to " + prop)
-            if r.violation != prop or not r.error_trace:
-                raise vlib.Infra("the as-coded model was expected to violate %s, TLC says: %s\n%s" % (prop, r.violation, r.out[-2000:]))
-            scenarios.append(scenario_from_trace(name, r))
-        c.notes.append("as-coded model (CheckDigest = FALSE): TLC counterexamples %s replayed on the real code" %
-                       "; ".join("%s = %s" % (s["name"], [a["name"] + str(a.get("it", a.get("id"))) for a in s["acts"]]) for s in scenarios))
-
-        _t("TLC and builds done")
-        fr_cases = framing_cases(vlib.parse_transitions(R["fr-gen"].out))
-        hs_cases = handshake_cases(vlib.parse_transitions(R["hs-gen"].out))
-        T = blockrecv_transitions(vlib.parse_transitions(R["br-gen"].out))
-        _t("parsed: framing %d, handshake %d, blockrecv %d" % (len(fr_cases), len(hs_cases), len(T)))
-        if len(fr_cases) < 1000 or len(hs_cases) < 1000 or len(T) < 5000:
-            raise vlib.Infra("too few generated cases: framing %d, handshake %d, blockrecv %d" % (len(fr_cases), len(hs_cases), len(T)))
-
-        # hand-written attack orders next to TLC's: through the chunk receiver, and double forgery
-        fa, ga = {"ann": "a", "hdr": "x"}, {"ann": "a", "hdr": "a"}
-        scenarios += [
-            {"name": "two-forged-notices-then-genuine", "acts": [
-                {"name": "BPNotice", "it": fa, "auth": True}, {"name": "BPNotice", "it": {"ann": "a", "hdr": "b"}, "auth": True},
-                {"name": "BPNotice", "it": ga, "auth": True}]},
-            {"name": "forged-chunk-then-genuine-chunk", "acts": [
-                {"name": "StartGet", "req": ["a"]}, {"name": "Chunk", "its": [fa], "hasNext": False, "ok": True},
-                {"name": "StartGet", "req": ["a"]}, {"name": "Chunk", "its": [ga], "hasNext": False, "ok": True}]},
-            {"name": "forged-block-response-then-genuine-notice", "acts": [
-                {"name": "GetBlockRsp", "its": [fa], "ok": True}, {"name": "BPNotice", "it": ga, "auth": True}]},
-        ]
-
         cwds = _runtime_tree(c)
-        envs = {}
+        envs, outs, plan = {}, {}, []
 
-        def inp(name, obj):
+        def inp(name, pkg, run_, obj):
             p = os.path.join(c.work, name + "_in.json")
             json.dump(obj, open(p, "w"))
-            o = os.path.join(c.work, name + "_out.json")
-            envs[name] = {"VERIF_IN": p, "VERIF_OUT": o, "VERIF_SEED": c.seed, "VERIF_TIER": c.tier}
-            return o
-        fr_fams = framing_families(c.tier, rng)
-        outs = {
-            "framing": inp("framing", {"hdr_len": 2, "max": 3, "cases": fr_cases, "families": fr_fams,
-                                       "random_streams": 800 if quick else 8000, "small_max": SMALL_MAX,
-                                       "true_every": 12 if quick else 2}),
-            "hs03x": inp("hs03x", {"cases": [x for x in hs_cases if x["ver"] != "v200"], "variants": 3 if quick else 4}),
-            "hs200": inp("hs200", {"cases": [x for x in hs_cases if x["ver"] == "v200"], "variants": 3 if quick else 4}),
-            "blockrecv": inp("blockrecv", {"transitions": T, "walks": blockrecv_walks(T, 60 if quick else 600, 40, rng),
-                                           "families": blockrecv_families(c.tier, rng), "scenarios": scenarios}),
-        }
-        plan = [("framing", "./p2p/v030/", "^TestVerifFraming$"), ("hs03x", "./p2p/v030/", "^TestVerifHandshakeV03x$"),
-                ("hs200", "./p2p/v200/", "^TestVerifHandshakeV200$"), ("blockrecv", "./p2p/", "^TestVerifBlockRecv$")]
-        # the framing probe measures the heap of the whole process and wants the machine's attention: it runs first, alone
+            outs[name] = os.path.join(c.work, name + "_out.json")
+            envs[name] = {"VERIF_IN": p, "VERIF_OUT": outs[name], "VERIF_SEED": c.seed, "VERIF_TIER": c.tier}
+            plan.append((name, pkg, run_))
+        sizes = {}
+        if "a" in parts:
+            c.require_ok(R["fr-mc"], "Framing design: RoundTrip, BoundedAlloc, AllocAfterCheck, Total, Deterministic, CleanFailure, ConsumedExact")
+            c.require_ok(R["fr-gen"], "Framing: enumeration of finished reader runs")
+            fr_cases = framing_cases(vlib.parse_transitions(R["fr-gen"].out))
+            if len(fr_cases) < 1000:
+                raise vlib.Infra("too few generated framing cases: %d" % len(fr_cases))
+            fr_fams = framing_families(c.tier, rng)
+            sizes["a"] = "framing %d finished reader runs (all byte streams of <= %d abstract bytes over 5 values, all <= 2 writer calls x truncations) x %d families" % (
+                len(fr_cases), 4 if quick else 6, len(fr_fams))
+            inp("framing", "./p2p/v030/", "^TestVerifFraming$",
+                {"hdr_len": 2, "max": 3, "cases": fr_cases, "families": fr_fams, "random_streams": 800 if quick else 8000,
+                 "small_max": SMALL_MAX, "true_every": 12 if quick else 2})
+        if "b" in parts:
+            c.require_ok(R["hs-mc"], "Handshake design: SameChainOnly, Decision, TwinAccepted, Total, InboundSendsAfterAccept")
+            c.require_ok(R["hs-gen"], "Handshake: enumeration of finished runs")
+            hs_cases = handshake_cases(vlib.parse_transitions(R["hs-gen"].out))
+            if len(hs_cases) < 1000:
+                raise vlib.Infra("too few generated handshake cases: %d" % len(hs_cases))
+            nv = 3 if quick else 4
+            sizes["b"] = "handshake %d finished runs (%s) x %d concrete variants" % (
+                len(hs_cases), "<= 2 deviating fields" if quick else "all field combinations", nv)
+            inp("hs03x", "./p2p/v030/", "^TestVerifHandshakeV03x$", {"cases": [x for x in hs_cases if x["ver"] != "v200"], "variants": nv})
+            inp("hs200", "./p2p/v200/", "^TestVerifHandshakeV200$", {"cases": [x for x in hs_cases if x["ver"] == "v200"], "variants": nv})
+        if "c" in parts:
+            c.require_ok(R["br-mc"], "BlockRecv intended design: FwdOwnDigest, SyncerOwnDigest, CacheOnlyLegit, ForgedNoTrace, GenuineAccepted, AnnouncementHeard, OneAnswer")
+            if not quick:
+                c.require_ok(R["br-mc2"], "BlockRecv intended design, 3-block requests, responses of <= 3 blocks")
+            c.require_ok(R["br-gen"], "BlockRecv: enumeration of transitions")
+            # the as-coded variants must FAIL in the design (that is the suspected defect); their counterexamples become test scenarios
+            scenarios = []
+            for key, prop, name in (("br-ac1", "GenuineAccepted", "forged-notice-then-genuine-notice"),
+                                    ("br-ac2", "AnnouncementHeard", "forged-notice-then-announcement")):
+                r = R[key]
+                c.add_tlc(r, "BlockRecv AS CODED (no digest check): expected counterexample to " + prop)
+                if r.violation != prop or not r.error_trace:
+                    raise vlib.Infra("the as-coded model was expected to violate %s, TLC says: %s\n%s" % (prop, r.violation, r.out[-2000:]))
+                scenarios.append(scenario_from_trace(name, r))
+            c.notes.append("as-coded model (CheckDigest = FALSE): TLC counterexamples replayed on the real code: " +
+                           "; ".join("%s = %s" % (s["name"], [a["name"] + json.dumps(a.get("it", a.get("id"))) for a in s["acts"]]) for s in scenarios))
+            T = blockrecv_transitions(vlib.parse_transitions(R["br-gen"].out))
+            if len(T) < 5000:
+                raise vlib.Infra("too few generated block-receive transitions: %d" % len(T))
+            # hand-written attack orders next to TLC's: double forgery, through the chunk receiver, through a block response
+            fa, ga = {"ann": "a", "hdr": "x"}, {"ann": "a", "hdr": "a"}
+            scenarios += [
+                {"name": "two-forged-notices-then-genuine", "acts": [
+                    {"name": "BPNotice", "it": fa, "auth": True}, {"name": "BPNotice", "it": {"ann": "a", "hdr": "b"}, "auth": True},
+                    {"name": "BPNotice", "it": ga, "auth": True}]},
+                {"name": "forged-chunk-then-genuine-chunk", "acts": [
+                    {"name": "StartGet", "req": ["a"]}, {"name": "Chunk", "its": [fa], "hasNext": False, "ok": True},
+                    {"name": "StartGet", "req": ["a"]}, {"name": "Chunk", "its": [ga], "hasNext": False, "ok": True}]},
+                {"name": "forged-block-response-then-genuine-notice", "acts": [
+                    {"name": "GetBlockRsp", "its": [fa], "ok": True}, {"name": "BPNotice", "it": ga, "auth": True}]},
+            ]
+            br_fams = blockrecv_families(c.tier, rng)
+            sizes["c"] = "block identity %d transitions x %d families of forged headers" % (len(T), len(br_fams))
+            inp("blockrecv", "./p2p/", "^TestVerifBlockRecv$",
+                {"transitions": T, "walks": blockrecv_walks(T, 60 if quick else 600, 40, rng), "families": br_fams, "scenarios": scenarios})
+        _t("inputs written: " + "; ".join(sizes.values()))
+        # the framing probe measures the heap of the whole process: it runs first, alone; the others run side by side
         results = {}
-        rc, out = _run_test(exes["./p2p/v030/"], plan[0][2], envs["framing"], cwds["./p2p/v030/"], 3000)
-        results["framing"] = (rc, out)
-        with concurrent.futures.ThreadPoolExecutor(max_workers=3) as ex:
-            futs = {name: ex.submit(_run_test, exes[pkg], run_, envs[name], cwds[pkg], 3000) for (name, pkg, run_) in plan[1:]}
-            for name, f in futs.items():
-                results[name] = f.result()
+        rest = []
+        for (name, pkg, run_) in plan:
+            if name == "framing":
+                results[name] = _run_test(exes[pkg], run_, envs[name], cwds[pkg], 3000)
+            else:
+                rest.append((name, pkg, run_))
+        if rest:
+            with concurrent.futures.ThreadPoolExecutor(max_workers=len(rest)) as ex:
+                futs = {name: ex.submit(_run_test, exes[pkg], run_, envs[name], cwds[pkg], 3000) for (name, pkg, run_) in rest}
+                for name, f in futs.items():
+                    results[name] = f.result()
     finally:
-        for e in (locals().get("exes") or {}).values():
+        for e in exes.values():
             try:
                 os.remove(e)
             except OSError:
@@ -380,11 +398,7 @@ def run(c):
         c.notes.append("observation (not a verdict): the handshaker of wire version 0.3.1 (V030Handshaker, still in AcceptedInboundVersions) "
                        "accepts a peer with a different genesis hash — that version has no genesis field to compare")
     c.exhaustive = True
-    c.extra["exhaustive_note"] = (
-        "exhaustive over the abstract models: framing %d finished reader runs (all byte streams of <= %d abstract bytes over 5 values, all "
-        "<= 2 writer calls x truncations) x %d families; handshake %d finished runs (%s) x concrete variants; block identity %d transitions "
-        "x %d families.  Concrete representatives, walks and random streams are sampled." % (
-            len(fr_cases), 4 if quick else 6, len(fr_fams), len(hs_cases), "<= 2 deviating fields" if quick else "all field combinations",
-            len(T), len(blockrecv_families(c.tier, random.Random(0)))))
+    c.extra["exhaustive_note"] = ("exhaustive over the abstract models: " + "; ".join(sizes[k] for k in sorted(sizes)) +
+                                  ".  Concrete representatives, walks and random streams are sampled.")
     # ---- chain-service side of (c): built by the coordinator
     run_chain_identity(c)
